@@ -26,12 +26,12 @@ def finding_key(opname, exc, tensors, args):
 # ---------------------------------------------------------------------------- op catalogue
 class Op:
     def __init__(self, name, impl, ref, n=1, kind="float", gen=None, tol=0.0, tol32=None, nan_default=False,
-                 excl_nan=False, may_raise=(), chain=True, out="pt", cond=None):
+                 excl_nan=False, may_raise=(), chain=True, out="pt", cond=None, weight=1, identity=None):
         self.name, self.impl, self.ref, self.n, self.kind = name, impl, ref, n, kind
         self.gen = gen or (lambda rng, ds: [])
         self.tol, self.tol32 = tol, (tol32 if tol32 is not None else tol)
         self.nan_default, self.excl_nan, self.may_raise = nan_default, excl_nan, may_raise
-        self.chain, self.out, self.cond = chain, out, cond
+        self.chain, self.out, self.cond, self.weight, self.identity = chain, out, cond, (2 if identity is not None else weight), identity
 
 def _clone_apply(f):
     """in-place method applied to a fresh clone; the method must return self"""
@@ -75,6 +75,7 @@ def _g_expand(rng, ds):
 def _g_getitem(rng, ds):
     if ds[0].dim() == 0 or 0 in ds[0].shape: return None
     k = rng.randint(1, ds[0].dim())
+    if ds[0].dim() >= 2 and rng.random() < 0.6: k = rng.randint(1, ds[0].dim() - 1)     # partial index
     idx = [rng.randrange(n) for n in ds[0].shape[:k]]
     return [idx[0] if k == 1 and rng.random() < 0.5 else idx]
 def _g_dtype(rng, ds): return [rng.choice(["f32", "f64"])]
@@ -167,33 +168,33 @@ OPS = [
     Op("ge_s", lambda ts, a: ts[0].ge(a[0]), lambda ds, a: ds[0].ge(a[0]), gen=_g_scalar),
     Op("eq_s", lambda ts, a: ts[0].eq(a[0]), lambda ds, a: ds[0].eq(a[0]), gen=_g_scalar),
     # ---- arithmetic and comparisons with tensors (broadcasting)
-    Op("add", lambda ts, a: ts[0].add(ts[1]), lambda ds, a: ds[0] + ds[1], n=2),
-    Op("add_op", lambda ts, a: ts[0] + ts[1], lambda ds, a: ds[0] + ds[1], n=2),
-    Op("sub", lambda ts, a: ts[0].sub(ts[1]), lambda ds, a: ds[0] - ds[1], n=2),
-    Op("sub_op", lambda ts, a: ts[0] - ts[1], lambda ds, a: ds[0] - ds[1], n=2),
-    Op("mul", lambda ts, a: ts[0].mul(ts[1]), lambda ds, a: ds[0] * ds[1], n=2),
-    Op("mul_op", lambda ts, a: ts[0] * ts[1], lambda ds, a: ds[0] * ds[1], n=2),
-    Op("div", lambda ts, a: ts[0].div(ts[1]), lambda ds, a: ds[0] / ds[1], n=2, tol=1e-14, tol32=1e-6),
-    Op("truediv", lambda ts, a: ts[0] / ts[1], lambda ds, a: ds[0] / ds[1], n=2, tol=1e-14, tol32=1e-6),
-    Op("imul_t", lambda ts, a: ts[0].clone().__imul__(ts[1]), lambda ds, a: ds[0] * ds[1], n=2),
-    Op("itruediv_t", lambda ts, a: ts[0].clone().__itruediv__(ts[1]), lambda ds, a: ds[0] / ds[1], n=2, tol=1e-14, tol32=1e-6),
-    Op("logaddexp", lambda ts, a: ts[0].logaddexp(ts[1]), lambda ds, a: torch.logaddexp(ds[0], ds[1]), n=2, tol=1e-12, tol32=1e-5),
-    Op("maximum", lambda ts, a: ts[0].maximum(ts[1]), lambda ds, a: torch.maximum(ds[0], ds[1]), n=2),
+    Op("add", lambda ts, a: ts[0].add(ts[1]), lambda ds, a: ds[0] + ds[1], n=2, identity=0.0),
+    Op("add_op", lambda ts, a: ts[0] + ts[1], lambda ds, a: ds[0] + ds[1], n=2, identity=0.0),
+    Op("sub", lambda ts, a: ts[0].sub(ts[1]), lambda ds, a: ds[0] - ds[1], n=2, identity=0.0),
+    Op("sub_op", lambda ts, a: ts[0] - ts[1], lambda ds, a: ds[0] - ds[1], n=2, identity=0.0),
+    Op("mul", lambda ts, a: ts[0].mul(ts[1]), lambda ds, a: ds[0] * ds[1], n=2, identity=1.0),
+    Op("mul_op", lambda ts, a: ts[0] * ts[1], lambda ds, a: ds[0] * ds[1], n=2, identity=1.0),
+    Op("div", lambda ts, a: ts[0].div(ts[1]), lambda ds, a: ds[0] / ds[1], n=2, tol=1e-14, tol32=1e-6, identity=1.0),
+    Op("truediv", lambda ts, a: ts[0] / ts[1], lambda ds, a: ds[0] / ds[1], n=2, tol=1e-14, tol32=1e-6, identity=1.0),
+    Op("imul_t", lambda ts, a: ts[0].clone().__imul__(ts[1]), lambda ds, a: ds[0] * ds[1], n=2, identity=1.0),
+    Op("itruediv_t", lambda ts, a: ts[0].clone().__itruediv__(ts[1]), lambda ds, a: ds[0] / ds[1], n=2, tol=1e-14, tol32=1e-6, identity=1.0),
+    Op("logaddexp", lambda ts, a: ts[0].logaddexp(ts[1]), lambda ds, a: torch.logaddexp(ds[0], ds[1]), n=2, tol=1e-12, tol32=1e-5, identity=-INF),
+    Op("maximum", lambda ts, a: ts[0].maximum(ts[1]), lambda ds, a: torch.maximum(ds[0], ds[1]), n=2, identity=-INF),
     Op("lt", lambda ts, a: ts[0].lt(ts[1]), lambda ds, a: ds[0].lt(ds[1]), n=2),
     Op("le", lambda ts, a: ts[0].le(ts[1]), lambda ds, a: ds[0].le(ds[1]), n=2),
     Op("gt", lambda ts, a: ts[0].gt(ts[1]), lambda ds, a: ds[0].gt(ds[1]), n=2),
     Op("ge", lambda ts, a: ts[0].ge(ts[1]), lambda ds, a: ds[0].ge(ds[1]), n=2),
     Op("eq", lambda ts, a: ts[0].eq(ts[1]), lambda ds, a: ds[0].eq(ds[1]), n=2),
-    Op("logical_or", lambda ts, a: ts[0].logical_or(ts[1]), lambda ds, a: ds[0].logical_or(ds[1]), n=2, kind=B),
-    Op("logical_and", lambda ts, a: ts[0].logical_and(ts[1]), lambda ds, a: ds[0].logical_and(ds[1]), n=2, kind=B),
+    Op("logical_or", lambda ts, a: ts[0].logical_or(ts[1]), lambda ds, a: ds[0].logical_or(ds[1]), n=2, kind=B, identity=False),
+    Op("logical_and", lambda ts, a: ts[0].logical_and(ts[1]), lambda ds, a: ds[0].logical_and(ds[1]), n=2, kind=B, identity=True),
     # ---- where / any / log_softmax
-    Op("where", lambda ts, a: ts[0].where(ts[1], ts[2]), lambda ds, a: torch.where(ds[1], ds[0], ds[2]), n=3, kind="where", nan_default=True),
+    Op("where", lambda ts, a: ts[0].where(ts[1], ts[2]), lambda ds, a: torch.where(ds[1], ds[0], ds[2]), n=3, kind="where", nan_default=True, weight=4),
     Op("any", lambda ts, a: ts[0].any(a[0], a[1]), lambda ds, a: ds[0].any(a[0], a[1]), kind=B, gen=_g_keepdim),
     Op("log_softmax", lambda ts, a: ts[0].log_softmax(a[0]), lambda ds, a: ds[0].log_softmax(a[0]), gen=_g_dim_neg,
        tol=1e-9, tol32=1e-4, excl_nan=True, cond=lambda ds: 0 not in ds[0].shape),
     # ---- indexing, iteration, tolist
     Op("getitem", lambda ts, a: ts[0][a[0] if isinstance(a[0], int) else tuple(a[0])],
-       lambda ds, a: ds[0][a[0] if isinstance(a[0], int) else tuple(a[0])], kind=A, gen=_g_getitem, nan_default=True),
+       lambda ds, a: ds[0][a[0] if isinstance(a[0], int) else tuple(a[0])], kind=A, gen=_g_getitem, nan_default=True, weight=4),
     Op("iter", _impl_iter, _ref_iter, kind=A, out="list", chain=False, nan_default=True,
        cond=lambda ds: ds[0].dim() >= 1),
     Op("tolist", lambda ts, a: ts[0].tolist(), lambda ds, a: ds[0].tolist(), kind=A, out="pylist", chain=False, nan_default=True),
@@ -205,7 +206,7 @@ OPS = [
     Op("T", lambda ts, a: ts[0].T, lambda ds, a: _T(ds[0]), kind=A, nan_default=True),
     Op("flatten", lambda ts, a: ts[0].flatten(), lambda ds, a: ds[0].flatten(), kind=A, nan_default=True),
     Op("unsqueeze", lambda ts, a: ts[0].unsqueeze(a[0]), lambda ds, a: ds[0].unsqueeze(a[0]), kind=A, gen=_g_unsq, nan_default=True),
-    Op("expand", lambda ts, a: ts[0].expand(*a[0]), lambda ds, a: ds[0].expand(*a[0]), kind=A, gen=_g_expand, nan_default=True),
+    Op("expand", lambda ts, a: ts[0].expand(*a[0]), lambda ds, a: ds[0].expand(*a[0]), kind=A, gen=_g_expand, nan_default=True, weight=2),
     Op("expand_as", lambda ts, a: ts[0].expand_as(U.build_tensor(dict(types=[], vaxes=[("Phys", (900 + i, n)) if n != 1 else U.UNIT for i, n in enumerate(a[0])],
                                                                      paxes=[(900 + i, n) for i, n in enumerate(a[0]) if n != 1], default=0.0, dtype="f64",
                                                                      values=[0.0] * math.prod(a[0])))),
@@ -215,8 +216,8 @@ OPS = [
     Op("detach", lambda ts, a: ts[0].detach(), lambda ds, a: ds[0].detach(), kind=A, nan_default=True),
     Op("freshen", lambda ts, a: ts[0].freshen(), lambda ds, a: ds[0], kind=A, nan_default=True),
     Op("default_to", lambda ts, a: ts[0].default_to(a[0]), lambda ds, a: ds[0], gen=_g_default, nan_default=True),
-    Op("dim_to_dense", lambda ts, a: ts[0].dim_to_dense(a[0]), lambda ds, a: ds[0], kind=A, gen=_g_dim, nan_default=True),
-    Op("reshape", lambda ts, a: ts[0].reshape(a[0]) , lambda ds, a: ds[0].reshape(a[0]), kind=A, gen=_g_reshape, may_raise=(RuntimeError,), nan_default=True),
+    Op("dim_to_dense", lambda ts, a: ts[0].dim_to_dense(a[0]), lambda ds, a: ds[0], kind=A, gen=_g_dim, nan_default=True, weight=2),
+    Op("reshape", lambda ts, a: ts[0].reshape(a[0]) , lambda ds, a: ds[0].reshape(a[0]), kind=A, gen=_g_reshape, may_raise=(RuntimeError,), nan_default=True, weight=2),
     Op("reshape_star", lambda ts, a: ts[0].reshape(*a[0]), lambda ds, a: ds[0].reshape(*a[0]), kind=A, gen=_g_reshape, may_raise=(RuntimeError,)),
     Op("view", lambda ts, a: ts[0].view(a[0]), lambda ds, a: ds[0].reshape(a[0]), kind=A, gen=_g_reshape, may_raise=(RuntimeError,)),
 ]
@@ -242,7 +243,15 @@ def gen_operands(op, rng, types, pats):
         ts, vax = pats
         spec = spec_from_pattern(ts, vax, rng, k0, deflt(k0), nan)
         return [spec]
-    t, pool = U.gen_tensor(rng, kind=k0, default=deflt(k0), nan=nan)
+    shape_types = None
+    if op.identity is not None and rng.random() < 0.5:
+        # operands over sum-typed dimensions: different injections give partially overlapping supports, which is
+        # what makes the three code paths of commutative / sub / div observable
+        sums = [x for x in types if x[0] == "sum" and U.tsize(x) <= 8]
+        shape_types = [rng.choice(sums)] + ([rng.choice(types[1:4])] if rng.random() < 0.6 else [])
+        rng.shuffle(shape_types)
+    t, pool = U.gen_tensor(rng, types=shape_types, kind=k0, default=deflt(k0), nan=nan,
+                           **(dict(p_phys=0.15) if shape_types else {}))
     if op.n == 1: return [t]
     # broadcast-compatible second operand
     bases = iter([40, 80, 120])
@@ -255,7 +264,8 @@ def gen_operands(op, rng, types, pats):
         if math.prod(U.tsize(x) for x in ts2) > 64: ts2 = ts[:]
         share = rng.random() < 0.3
         u, pl = U.gen_tensor(rng, types=ts2, kind=kind2, default=deflt(kind2), dtype=dtype,
-                             pool=(pool if share else U.Pool(next(bases))), nan=nan)
+                             pool=(pool if share else U.Pool(next(bases))), nan=nan,
+                             **(dict(p_phys=0.15) if shape_types else {}))
         return u, (pl if share else pool)
     if kind == "where":
         c, pool = partner(t, "bool", None, pool)
@@ -263,6 +273,10 @@ def gen_operands(op, rng, types, pats):
         return [t, c, u]
     u, pool = partner(t, k0, t["dtype"], pool)
     if rng.random() < 0.08: u = copy.deepcopy(t)     # t op t (all axes shared)
+    if op.identity is not None:
+        # steer into all three code paths of commutative / sub / div: defaults equal to the identity
+        if rng.random() < 0.5: t["default"] = op.identity
+        if rng.random() < 0.4: u["default"] = op.identity
     return [t, u]
 
 def spec_from_pattern(ts, vax, rng, kind, default, nan):
@@ -339,6 +353,13 @@ def run_step(op, tensors, denses, args, mon):
     return o, res, ref
 
 def exec_case(case, mon):
+    try:
+        return exec_case_(case, mon)
+    except Exception as ex:
+        mon.active = False
+        return Outcome("raise", detail="unexpected %r" % (ex,), exc=ex)
+
+def exec_case_(case, mon):
     """case: dict(op, args, operands[, chain=[(op, args, extra operands)...]])"""
     w = U.World()
     mon.active = False
@@ -611,19 +632,23 @@ def run_ops(tier, seed, violations, cov, mon):
     per_op_rand = 22 if quick else 400
     for op in OPS:
         if op.n == 1:
-            pats = patterns if per_op_exh is None else rng.sample(patterns, per_op_exh)
+            pats = patterns if per_op_exh is None else rng.sample(patterns, per_op_exh * op.weight)
             for p in pats:
                 case = gen_case(op, rng, types, p)
                 if case is None: continue
                 judge(case, exec_case(case, mon))
-        for _ in range(per_op_rand):
+        for _ in range(per_op_rand * op.weight):
             case = gen_case(op, rng, types)
             if case is None: continue
             judge(case, exec_case(case, mon))
             if len(samples) < 4 and nontrivial(case) and (not samples or rng.random() < 0.02): samples.append(describe(case))
     for name, f in SPECIALS.items():
-        for _ in range(40 if quick else 600):
-            case, out = f(rng, mon)
+        for _ in range(60 if quick else 800):
+            try:
+                case, out = f(rng, mon)
+            except Exception as ex:
+                mon.active = False
+                case, out = dict(op=name, args=[], operands=[]), Outcome("raise", detail="unexpected %r" % (ex,), exc=ex)
             if case is None: continue
             judge(case, out)
     # compositions
